@@ -64,3 +64,50 @@ def deadflag(repo, modules=None):
     if res.instances == 0 and modules is None:
         raise AnalysisError("no boolean flag locals found")
     return res
+
+
+def runmax(repo, modules=None):
+    """R-RUNMAX: the running-extremum idiom `if candidate >= best: best = value` keeps the largest (smallest) value seen
+    only if the value that is stored is the value that was compared.  Comparing one quantity (a field's start) and storing
+    another (its end) under-computes the extremum whenever a later item starts inside the extent seen so far but ends
+    beyond it — e.g. the fixed size of a structure with overlapping fields."""
+    res = RuleResult("R-RUNMAX")
+    for m in repo.modules.values():
+        if modules is not None and not m.rel.endswith(tuple(modules)):
+            continue
+        for f in m.funcs.values():
+            for n in walk_no_nested_funcs(f.node):
+                if not (isinstance(n, ast.If) and isinstance(n.test, ast.Compare) and len(n.test.ops) == 1 and not n.orelse
+                        and len(n.body) == 1 and isinstance(n.body[0], ast.Assign) and len(n.body[0].targets) == 1
+                        and isinstance(n.body[0].targets[0], ast.Name)):
+                    continue
+                acc = n.body[0].targets[0].id
+                l, r = n.test.left, n.test.comparators[0]
+                op = n.test.ops[0]
+                if not isinstance(op, (ast.Gt, ast.GtE, ast.Lt, ast.LtE)):
+                    continue
+                if isinstance(r, ast.Name) and r.id == acc:
+                    cand = l
+                elif isinstance(l, ast.Name) and l.id == acc:
+                    cand = r
+                else:
+                    continue
+                if isinstance(cand, ast.Constant):
+                    continue  # a sentinel test (`if pos < 0: pos = end`), not a running extremum
+                # only inside a loop
+                in_loop = False
+                cur = m.parent(n)
+                while cur is not None and cur is not f.node:
+                    if isinstance(cur, (ast.For, ast.While)):
+                        in_loop = True
+                    cur = m.parent(cur)
+                if not in_loop:
+                    continue
+                res.instances += 1
+                if ast.unparse(cand) != ast.unparse(n.body[0].value):
+                    res.add(f"{m.rel}|{f.qualname}|{acc}", f"{f.qualname}: `if {ast.unparse(n.test)}: {acc} = {ast.unparse(n.body[0].value)}` compares "
+                            f"`{ast.unparse(cand)}` but stores `{ast.unparse(n.body[0].value)}`: the running extremum is wrong for items "
+                            "that overlap the extent seen so far", m.rel, n.lineno, f.qualname)
+                elif len(res.samples) < 3:
+                    res.samples.append(f"{f.qualname}: {acc} <- {ast.unparse(cand)}")
+    return res
